@@ -23,7 +23,7 @@ impl World for W6 {
                 rule: "one run = two replicas of the same store type (real MemStore or real RocksStore) driven through the RaftStorage trait by one history of 6-40 operations over all 16 ClusterCommand kinds: append (same entries on both), apply with different batching per replica, build snapshot on A, install A's snapshot on lagging B at any index, purge up to any applied index (often everything), delete a conflicting suffix and re-append in a new term, save vote. After every operation: (a) equal state at equal applied index, (b) state == an independent reference model of apply_command at the applied position, (c) get_log_state / try_get_log_entries / read_vote / last_applied_state == reference model of the storage contract. Non-trivial = >= 4 entries appended and something applied; distinct = distinct decoded-trace hash.",
                 real: vec!["varpulis_cluster::raft::store::MemStore", "varpulis_cluster::raft::persistent_store::RocksStore (real RocksDB on tmpfs)", "apply_command, snapshot builders, openraft 0.9.21 types"],
                 stub: vec!["openraft's core (the harness plays its role towards the storage trait)"],
-                assumptions: vec!["membership entries are appended but last_membership is not judged", "the openraft conformance suite is run as fixed scenarios in the thorough tier only (not simulation)"],
+                assumptions: vec!["the openraft conformance suite is run as fixed scenarios in the thorough tier only (not simulation)"],
             },
             Prop {
                 id: "C36",
@@ -34,7 +34,7 @@ impl World for W6 {
                 rule: "one run = one real RocksStore driven by a history of 6-30 operations (append, apply, build snapshot, install a consistent snapshot from an in-memory leader, purge, delete conflicting suffix, save vote) with 1-3 crashes armed at tape-chosen H5 crash points (after each individual RocksDB write inside an operation) and occasional clean restarts; crash = unwind at the crash point, the store object is dropped, RocksStore::open_with_shared_state reopens the same directory. After every restart: each recorded item (applied position, vote, purge position, log) is the value before or after the interrupted operation, the log is contiguous and starts right after the purge position, and the published state machine equals the reference model of the commands up to the recorded applied position. Non-trivial = at least one restart and >= 3 entries; distinct = distinct decoded-trace hash.",
                 real: vec!["varpulis_cluster::raft::persistent_store::RocksStore incl. open/recover_metadata/replay_log", "real RocksDB (WAL, column families) on tmpfs"],
                 stub: vec!["openraft's core", "the process (crash = unwind at a crash point; completed RocksDB writes survive, as with a process kill)"],
-                assumptions: vec!["process-crash model; RocksDB-internal recovery and power loss are out of scope", "last_membership is not judged"],
+                assumptions: vec!["process-crash model; RocksDB-internal recovery and power loss are out of scope"],
             },
             Prop {
                 id: "C37",
